@@ -212,6 +212,7 @@ var contentAlphabet = map[string]func(w *worker) string{
 	"compile-invalid": func(w *worker) string { return w.baseCfg + "\"/r\" {\n  pull { path \"/e\" }\n}\n" },
 	"garbage":         func(w *worker) string { return "@@@ not a config {{{" },
 	"empty":           func(w *worker) string { return "" },
+	"same":            func(w *worker) string { return w.baseCfg }, // the bytes the configured path already holds (cfg-is variants)
 }
 
 // variantsFor lists the argument-shape variants of one tool ("minimal" is the gating-table row itself; the
@@ -268,13 +269,85 @@ func variantsFor(tool string, thorough bool) []string {
 	if tool == "management_endpoint_upsert" || tool == "management_endpoint_delete" {
 		vs = append(vs, "mode:preview_only", "mode:write_and_reload")
 	}
+	if configWriters[tool] {
+		// what the configured config path itself IS (cfgKinds) x the writing calls of the tool
+		for _, k := range cfgKinds {
+			for _, b := range cfgKindBases(tool) {
+				vs = append(vs, "cfg-is:"+k+":"+b)
+			}
+		}
+	}
 	return vs
+}
+
+// ---- what the configured config path is ------------------------------------------------------------------
+//
+// The configured path of every other case is a regular file. Here it is a symbolic link whose target is a file at
+// another path of the scratch tree (absolute link, relative link, chain of two links, link to the planted foreign
+// config). The statement names the configured PATH: a config-writing call may replace what is at that path (the
+// product renames a temporary file over it) or leave it alone; every other file of the tree - the link's target
+// included - keeps content and identity (inode), every other link its text, and nothing is created or deleted.
+var cfgKinds = []string{"link-abs", "link-rel", "link-chain", "link-foreign"}
+
+const cfgKindPrefix = "cfg-is:"
+
+// splitCfgKind splits "cfg-is:<kind>:<base variant>"; kind is "" for every other variant.
+func splitCfgKind(variant string) (kind, base string) {
+	if !strings.HasPrefix(variant, cfgKindPrefix) {
+		return "", variant
+	}
+	rest := strings.TrimPrefix(variant, cfgKindPrefix)
+	i := strings.IndexByte(rest, ':')
+	if i < 0 {
+		return rest, "minimal"
+	}
+	return rest[:i], rest[i+1:]
+}
+
+// cfgKindBases: the calls of a config-writing tool that write (incl. the rollback after a failed reload and a
+// write of unchanged content, where only the identity of a file tells that it was replaced).
+func cfgKindBases(tool string) []string {
+	if tool == "config_apply" {
+		return []string{"content:valid:write_only", "content:valid:write_and_reload", "content:valid-unhealthy:write_and_reload",
+			"content:same:write_only", "content:compile-invalid:write_only"}
+	}
+	return []string{"minimal", "mode:write_and_reload"}
+}
+
+// makeCfgKind turns the configured path of a freshly reset worker directory into the given kind.
+func (w *worker) makeCfgKind(kind string) error {
+	linkedDir := filepath.Join(w.dir, "linked")
+	target := filepath.Join(linkedDir, "shared.conf")
+	if err := os.MkdirAll(linkedDir, 0o755); err != nil {
+		return err
+	}
+	if err := os.WriteFile(target, []byte(w.baseCfg), 0o600); err != nil {
+		return err
+	}
+	if err := os.Remove(w.cfgPath); err != nil {
+		return err
+	}
+	switch kind {
+	case "link-abs":
+		return os.Symlink(target, w.cfgPath)
+	case "link-rel":
+		return os.Symlink(filepath.Join("linked", "shared.conf"), w.cfgPath)
+	case "link-chain":
+		if err := os.Symlink(filepath.Join("linked", "shared.conf"), filepath.Join(w.dir, "hop-link")); err != nil {
+			return err
+		}
+		return os.Symlink("hop-link", w.cfgPath)
+	case "link-foreign":
+		return os.Symlink(w.foreign, w.cfgPath)
+	}
+	return fmt.Errorf("unknown config path kind %q", kind)
 }
 
 // buildArgs materialises a variant of the tool's minimal arguments.
 func buildArgs(w *worker, tool, variant string) (args map[string]any, omit bool, err error) {
 	args = minimalArgs(w, tool)
 	variant = strings.TrimPrefix(variant, "nocfg:")
+	_, variant = splitCfgKind(variant)
 	switch {
 	case variant == "minimal", variant == "twice", strings.HasPrefix(variant, "env:"):
 	case variant == "no-arguments":
@@ -386,6 +459,8 @@ type caseResult struct {
 	SpelledRan bool // a spelled tool name was run as the documented mutating tool (audit clause applied)
 	AdminReads int
 	ArgsJSON   string
+	CfgKind    string // what the configured config path is ("" = regular file)
+	CensusN    int    // entries of the scratch tree compared before / after the call
 }
 
 var auditFields = []string{"timestamp", "principal", "role", "tool", "input_hash", "result"}
@@ -437,6 +512,14 @@ func runCase(w *worker, spec caseSpec) *caseResult {
 			return cr
 		}
 	}
+	cfgKind, _ := splitCfgKind(spec.Variant)
+	if cfgKind != "" {
+		if err := w.makeCfgKind(cfgKind); err != nil {
+			cr.InfraErr = "config path kind: " + err.Error()
+			return cr
+		}
+	}
+	cr.CfgKind = cfgKind
 	noCfg := spec.Variant == "env:no-config-path" || strings.HasPrefix(spec.Variant, "nocfg:")
 	configPath := w.cfgPath
 	if noCfg {
@@ -463,6 +546,7 @@ func runCase(w *worker, spec caseSpec) *caseResult {
 		return cr
 	}
 	changed := diffSnap(before, after)
+	cr.CensusN = len(before)
 	dbCh, err := w.dbChanged(dbMissing)
 	if err != nil {
 		cr.InfraErr = "db dump: " + err.Error()
@@ -787,6 +871,10 @@ func allCases(thorough bool) []caseSpec {
 			}
 		}
 	}
+	// the config-path-kind cases first (a wall budget then cuts repetitions of the gating table, never this part)
+	sort.SliceStable(out, func(i, j int) bool {
+		return strings.HasPrefix(out[i].Variant, cfgKindPrefix) && !strings.HasPrefix(out[j].Variant, cfgKindPrefix)
+	})
 	return out
 }
 
@@ -998,6 +1086,18 @@ func TestCheck(t *testing.T) {
 					r.Add("ref_either", 1)
 				}
 				r.Add("list_sets_checked", 1)
+				r.Add("census_entries_compared", int64(cr.CensusN))
+				if cr.CfgKind != "" {
+					r.Add("config_path_kind_cases", 1)
+					if !cr.Refused {
+						r.Add("config_path_kind_calls_ran", 1)
+					}
+					for _, e := range cr.Effects {
+						if e == "config-file" {
+							r.Add("config_path_kind_writes_observed", 1)
+						}
+					}
+				}
 				tref, known := refByName[spec.Tool]
 				if known && tref.Mutating {
 					r.Add("audit_records_checked", int64(cr.AuditN))
@@ -1191,6 +1291,7 @@ func TestCheck(t *testing.T) {
 	}
 	r.Set("workers", nw)
 	r.Set("cases_planned", len(cases))
+	r.Set("config_path_kinds", append([]string{"regular-file"}, cfgKinds...))
 	{
 		var tags []string
 		for _, sp := range spellings {
@@ -1200,12 +1301,13 @@ func TestCheck(t *testing.T) {
 		}
 		r.Set("tool_name_spellings", tags)
 	}
-	r.Set("rule", "complete product: 31 documented tool names + 2 unknown names x role input {read, operate, admin, invalid 'root' via WithRole, invalid 'superuser' via Server.Role} x --enable-mutations {off,on} x --enable-runtime-control {off,on} x principal {set, empty} = 1320 table rows; every row is one Serve session (initialize, tools/list, tools/call with minimal valid arguments) on a fresh scratch directory (seeded SQLite queue db, config file, pid file of a harness child, foreign files) with side-effect probes; every row is repeated for every argument-shape variant of its tool (unknown key, no arguments, actor = / != principal in 4 spellings, missing reason, 12 path spellings (incl. a `..` behind a symlinked directory and symbolic links to the foreign and to the configured file), config_apply content{6} x mode{3}, management mode{2}); every row is also run twice in one session and on a server without configured config path (plus 6 path spellings there for the 8 path-taking tools: nothing may be written or created anywhere, no foreign content served); every documented tool is also called under spellings of its name (quick: trailing space, tab+CRLF wrap, upper case x the three documented roles x flags x principal x {minimal, actor != principal}; thorough: also leading space, '-' for '_', trailing NBSP, all role inputs, twice / actor = principal): refused without effect, or gated exactly like the documented tool and - if it ran and the tool is mutating - audited with exactly one record; before the table, `hookaido mcp serve` is run as a real child process (app.Main; stdin/stdout pipes, stderr = audit sink file) for every mutating tool x 3 configurations (thorough 5) x end {SIGKILL, end of input} with three calls per session (valid arguments, none, valid again): at the moment each answer is read, and after the process ended, the sink holds exactly one complete record per answered call; thorough adds 2 more unknown names, 3 more invalid role inputs, 4 environment states (db missing, config unparsable, config missing, all routes on the memory backend = admin-proxy mode against a recording Admin API stand-in) . A case is distinct by (tool, configuration, variant, reference verdict, observed outcome)")
+	r.Set("rule", "complete product: 31 documented tool names + 2 unknown names x role input {read, operate, admin, invalid 'root' via WithRole, invalid 'superuser' via Server.Role} x --enable-mutations {off,on} x --enable-runtime-control {off,on} x principal {set, empty} = 1320 table rows; every row is one Serve session (initialize, tools/list, tools/call with minimal valid arguments) on a fresh scratch directory (seeded SQLite queue db, config file, pid file of a harness child, foreign files) with side-effect probes; every row is repeated for every argument-shape variant of its tool (unknown key, no arguments, actor = / != principal in 4 spellings, missing reason, 12 path spellings (incl. a `..` behind a symlinked directory and symbolic links to the foreign and to the configured file), config_apply content{6} x mode{3}, management mode{2}; for the 3 config-writing tools: configured config path = symbolic link {absolute, relative, chain of two, to the planted foreign config} to a file elsewhere in the tree x the writing calls {config_apply valid / unhealthy-rollback / unchanged bytes / compile-invalid, management default mode / write_and_reload}: every file of the tree other than the configured path keeps content and inode, every other link its text, nothing is created or deleted); every row is also run twice in one session and on a server without configured config path (plus 6 path spellings there for the 8 path-taking tools: nothing may be written or created anywhere, no foreign content served); every documented tool is also called under spellings of its name (quick: trailing space, tab+CRLF wrap, upper case x the three documented roles x flags x principal x {minimal, actor != principal}; thorough: also leading space, '-' for '_', trailing NBSP, all role inputs, twice / actor = principal): refused without effect, or gated exactly like the documented tool and - if it ran and the tool is mutating - audited with exactly one record; before the table, `hookaido mcp serve` is run as a real child process (app.Main; stdin/stdout pipes, stderr = audit sink file) for every mutating tool x 3 configurations (thorough 5) x end {SIGKILL, end of input} with three calls per session (valid arguments, none, valid again): at the moment each answer is read, and after the process ended, the sink holds exactly one complete record per answered call; thorough adds 2 more unknown names, 3 more invalid role inputs, 4 environment states (db missing, config unparsable, config missing, all routes on the memory backend = admin-proxy mode against a recording Admin API stand-in) . A case is distinct by (tool, configuration, variant, reference verdict, observed outcome)")
 	r.Assume("reference table transcribed from docs/mcp.md, internal/mcp/spec.md, DESIGN.md 'Access Model' (cross-checked against the tree's docs at run time); 'refused' = JSON-RPC error or result.isError")
 	r.Assume("invalid role strings: the statement does not say whether they mean 'read' (documented default) or 'nothing'; both are accepted for read-level tools as long as tools/list and tools/call agree; anything above read must be refused")
 	r.Assume("queue backend sqlite in the table; admin-proxy mode (memory backend) only as a thorough-tier environment variant against a recording stand-in that answers 200 to everything (postgres is the same code path, not run); process effects are observed on harness-owned children (fake run binary = this test binary, signal-recording sleeper); admin health is an in-process loopback listener")
 	r.Assume("wiring part: the audit sink of `hookaido mcp serve` is a regular file opened O_APPEND as the child's stderr (not a pipe or terminal); instance_* tools are only run in configurations that deny them (no process control from the child); lines of the sink that are not JSON objects with a `tool` member are taken for diagnostics and ignored; 'at the answer' = after the complete response frame was read from the child's stdout")
 	r.Assume("tool-name spellings: a finite alphabet of 6 spellings (3 in quick) that white-space trimming, case folding or '-'/'_' folding would map to a documented tool; for a refused spelled call the statement does not say whether it was a mutating call (unknown tool vs denied tool), so no audit record is demanded or forbidden there")
+	r.Assume("configured path that is a symbolic link: the statement names the configured PATH, so replacing the link by a file and leaving it alone are both accepted; changing the file the link points to (content or inode) is reported as touching another path; a temporary file that is created and removed again inside one call is not seen by the before/after census")
 	r.Assume("confinement is checked on the enumerated path/content alphabet, not on arbitrary strings; audit fields are checked for presence and plausibility (principal/role/tool equal the configuration, input_hash is a function of the arguments and not constant over different arguments, result separates denied/failed from success), not for formatting")
 	r.Finish()
 }
